@@ -9,6 +9,31 @@ use super::util::*;
 
 pub const HTTP_VERBS: [&str; 9] = ["GET", "PUT", "POST", "HEAD", "DELETE", "CONNECT", "OPTIONS", "TRACE", "PATCH"];
 
+/// valid UTF-8 text that mixes ASCII with 2-, 3- and 4-byte characters, byte length in
+/// [min, max]: multi-byte characters end up straddling every offset (what a log line truncated
+/// at a fixed byte count, or a lossy conversion, has to cope with); no SP / CR / LF
+pub fn utf8_text(min: usize, max: usize) -> impl Strategy<Value = Vec<u8>> {
+    (min..=max, vec((any::<u16>(), prop::sample::select(vec!['é', 'ü', 'ß', '€', '中', '한', '𝄞', '😀', '\u{7ff}', '\u{800}', '\u{ffff}'])), 1..10), any::<u8>()).prop_map(move |(n, ins, c)| {
+        let mut chars: Vec<char> = std::iter::repeat((b'a' + c % 26) as char).take(n).collect();
+        for (p, ch) in ins {
+            let k = pick(p, chars.len().max(1));
+            if k < chars.len() {
+                chars[k] = ch;
+            }
+        }
+        let mut v: Vec<u8> = Vec::new();
+        for ch in chars {
+            let mut b = [0u8; 4];
+            let e = ch.encode_utf8(&mut b).as_bytes();
+            if v.len() + e.len() > max {
+                break;
+            }
+            v.extend_from_slice(e);
+        }
+        v
+    })
+}
+
 // ---------------------------------------------------------------------------------------
 // HTTP
 
@@ -71,6 +96,7 @@ fn target_bytes() -> impl Strategy<Value = Hex> {
         2 => vec(any::<u8>().prop_map(|b| if b == b' ' || b == b'\r' || b == b'\n' { b'x' } else { b }), 0..60).prop_map(Hex),
         1 => vec(prop::sample::select(vec![0x80u8, 0xff, 0xc3, 0x28, 0xfe, 0x00, b'a', b'/']), 1..24).prop_map(Hex),
         1 => Just(Hex(vec![])),
+        1 => utf8_text(20, 300).prop_map(Hex),
         // long targets (log-line truncation, buffer limits), ASCII with multi-byte / invalid UTF-8 sprinkled in
         1 => (100usize..400, vec((any::<u16>(), prop::sample::select(vec![0xc3u8, 0xa9, 0xff, 0xe2, 0x82, 0xac, 0xf0, 0x80])), 0..12), any::<u8>()).prop_map(|(n, hi, c)| {
             let mut v = vec![b'a' + c % 26; n];
@@ -164,6 +190,7 @@ fn ssh_text(allow_sp: bool, min: usize) -> impl Strategy<Value = Hex> {
         3 => vec(prop::sample::select((0x21u8..0x7f).collect::<Vec<u8>>()), min..40).prop_map(Hex),
         2 => vec(any::<u8>(), min..80).prop_map(Hex),
         2 => vec(prop::sample::select(vec![b'\r', b'a', b'\r', 0u8, 0xffu8, b'-', b'\n']), min..20).prop_map(Hex),
+        2 => utf8_text(min.max(30), 79).prop_map(Hex),
     ]
     .prop_map(move |mut h| {
         if !allow_sp {
@@ -246,6 +273,10 @@ pub struct StunReq {
     /// 16 bytes; bytes 0..4 are overwritten by the magic cookie when `magic`
     pub id: [u8; 16],
     pub attrs: Vec<StunAttr>,
+    /// bytes after the end of the message as declared by its length field (same datagram /
+    /// segment): not part of the STUN message
+    #[serde(default)]
+    pub trailer: Hex,
 }
 
 impl StunReq {
@@ -272,6 +303,7 @@ impl StunReq {
         v.extend_from_slice(&(ab.len() as u16).to_be_bytes());
         v.extend_from_slice(&self.tid());
         v.extend_from_slice(&ab);
+        v.extend_from_slice(&self.trailer);
         v
     }
     /// number of CHANGE-REQUEST attributes with the change-port bit
@@ -328,28 +360,39 @@ fn stun_other_attr() -> impl Strategy<Value = StunAttr> {
     })
 }
 
-/// Well-formed binding request *with* magic cookie: 0..6 TLVs, CHANGE-REQUEST at most once.
+/// Well-formed binding request *with* magic cookie: 0..8 TLVs, CHANGE-REQUEST 0..3 times.
 pub fn stun_req_magic() -> impl Strategy<Value = StunReq> {
-    (stun_id(), vec(stun_other_attr(), 0..=5), prop::option::of((stun_change_request(), any::<u16>()))).prop_map(|(id, mut attrs, cr)| {
-        if let Some((c, pos)) = cr {
+    (stun_id(), vec(stun_other_attr(), 0..=5), prop_oneof![3 => vec((stun_change_request(), any::<u16>()), 0..=1), 1 => vec((stun_change_request(), any::<u16>()), 2..=3)]).prop_map(|(id, mut attrs, crs)| {
+        for (c, pos) in crs {
             let p = pick(pos, attrs.len() + 1);
             attrs.insert(p, c);
         }
-        StunReq { mtype: 1, magic: true, id, attrs }
+        StunReq { mtype: 1, magic: true, id, attrs, trailer: Hex(vec![]) }
     })
 }
 
 /// The two published RFC 3489 forms (no cookie): no attributes, or a single CHANGE-REQUEST.
 pub fn stun_req_classic() -> impl Strategy<Value = StunReq> {
-    (stun_id(), prop::option::of((0u8..8).prop_map(|bits| StunAttr { typ: 3, value: Hex(vec![0, 0, 0, bits & 0x06]) }))).prop_map(|(id, cr)| StunReq { mtype: 1, magic: false, id, attrs: cr.into_iter().collect() })
+    (stun_id(), prop::option::of((0u8..8).prop_map(|bits| StunAttr { typ: 3, value: Hex(vec![0, 0, 0, bits & 0x06]) }))).prop_map(|(id, cr)| StunReq { mtype: 1, magic: false, id, attrs: cr.into_iter().collect(), trailer: Hex(vec![]) })
 }
 
 /// magic-cookie request whose attribute bytes exceed 255 (so that the message length's high
 /// byte is non-zero and the request is outside the matcher's known shadowing divergence)
 pub fn stun_req_magic_big() -> impl Strategy<Value = StunReq> {
-    (stun_req_magic(), 64usize..=120, any::<u8>(), any::<u16>()).prop_map(|(mut r, words, fill, pos)| {
+    // bytes behind the message (the length field says where it ends): nothing, zeros, something
+    // that reads like a CHANGE-REQUEST with the change-port bit, a TLV announcing more than is
+    // there, arbitrary bytes
+    let trailer = prop_oneof![
+        8 => Just(vec![]),
+        1 => (1usize..24).prop_map(|n| vec![0u8; n]),
+        2 => any::<u8>().prop_map(|b| vec![0, 3, 0, 4, 0, 0, 0, b | 2]),
+        1 => any::<[u8; 3]>().prop_map(|b| vec![0, 1, 0xff, 0xf0, b[0], b[1], b[2]]),
+        1 => vec(any::<u8>(), 1..24),
+    ];
+    (stun_req_magic(), 64usize..=120, any::<u8>(), any::<u16>(), trailer).prop_map(|(mut r, words, fill, pos, trailer)| {
         let p = pick(pos, r.attrs.len() + 1);
         r.attrs.insert(p, StunAttr { typ: 0x8022, value: Hex(vec![fill; words * 4]) });
+        r.trailer = Hex(trailer);
         r
     })
 }
@@ -596,7 +639,43 @@ impl RpcCall {
     }
 }
 
+/// AUTH_SYS (flavor 1) credential bodies: stamp, machine name (length + padded bytes), uid, gid,
+/// auxiliary gids — consistent, or with a machine-name length that disagrees with the bytes
+/// present (one past the end, exactly the rest, huge), or cut short after any field
+pub fn auth_sys_cred() -> impl Strategy<Value = Vec<u8>> {
+    ("[a-z0-9.-]{0,24}", any::<[u32; 3]>(), vec(any::<u32>(), 0..5), prop_oneof![5 => Just(0i32), 1 => 1i32..=8, 1 => -4i32..0, 1 => Just(1000i32), 1 => Just(i32::MAX)], prop::option::weighted(0.3, any::<u16>())).prop_map(|(name, w, gids, lie, cut)| {
+        let mut v = w[0].to_be_bytes().to_vec();
+        let nl = (name.len() as i64 + lie as i64).max(0) as u32;
+        v.extend_from_slice(&nl.to_be_bytes());
+        v.extend_from_slice(name.as_bytes());
+        while v.len() % 4 != 0 {
+            v.push(0);
+        }
+        v.extend_from_slice(&w[1].to_be_bytes());
+        v.extend_from_slice(&w[2].to_be_bytes());
+        v.extend_from_slice(&(gids.len() as u32).to_be_bytes());
+        for g in gids {
+            v.extend_from_slice(&g.to_be_bytes());
+        }
+        if let Some(c) = cut {
+            let k = pick(c, v.len() + 1);
+            v.truncate(k);
+        }
+        v
+    })
+}
+
 pub fn rpc_call() -> impl Strategy<Value = RpcCall> {
+    (rpc_call_plain(), prop::option::weighted(0.25, auth_sys_cred())).prop_map(|(mut r, a)| {
+        if let Some(a) = a {
+            r.cred_flavor = 1;
+            r.cred = Hex(a);
+        }
+        r
+    })
+}
+
+fn rpc_call_plain() -> impl Strategy<Value = RpcCall> {
     (
         (any::<u32>(), prop_oneof![3 => Just(2u8), 1 => any::<u8>()]),
         prop_oneof![4 => Just(100000u32), 2 => 99840u32..=100095, 1 => Just(100003u32), 1 => Just(100005u32)],
